@@ -183,6 +183,7 @@ func (e *Enc) mutexKey(a Val) Term { return e.coerce(a) }
 func modelLock(e *Enc, c *ssa.CallCommon, args []Val, pos token.Pos) ([]Val, bool) {
 	m := e.mutexKey(args[0])
 	held := e.heldArr()
+	e.lockCount++
 	e.oblige("lock", "no-reentry", pos, Not(Select(held, m)), []string{"C05", "C20"}, "mutex must not be held when locked")
 	e.setHeld(Store(held, m, True))
 	return nil, true
@@ -205,7 +206,8 @@ func (e *Enc) heldArr() Term {
 	}
 	c := e.declare("H0_held", ArraySort(SInt, SBool))
 	e.heap0["gh|$held"] = c
-	// at function entry no mutex is held by this goroutine (functions under lock say so in requires)
+	// at function entry no mutex is held by this goroutine (a function meant to run under a lock would say so in requires)
+	e.assert(Eq(c, mk(ArraySort(SInt, SBool), "((as const (Array Int Bool)) false)")))
 	return c
 }
 
